@@ -122,7 +122,8 @@ def impl_run(case):
                 h = H({o: c * case["scale"] for o, c in p.h().items()})
             else:
                 h = H(gens.py_hist_dict(case["h"]))
-            return {"h": hist_items(h), "eq": p == h, "req": h == p, "ne": p != h, "Hp": hist_items(H(p)) == hist_items(p.h())}
+            return {"h": hist_items(h), "eq": p == h, "req": h == p, "ne": p != h, "rne": h != p,
+                    "flat": hist_items(p.h()), "Hp": hist_items(H(p)) == hist_items(p.h())}
     except (ValueError, TypeError, IndexError, ZeroDivisionError) as e:
         return {"exc": type(e).__name__}
 
@@ -187,11 +188,16 @@ def oracle(case):
         outs = range(1, n + 1) if n > 0 else range(n, 0)
         return {"ok": [[[i, 1], 1] for i in outs], "total": abs(n)}
     if k == "peq":
-        return None   # decided by impl-internal consistency below and by the model
+        return {"spec": "p == h, h == p, not (p != h), not (h != p) all say whether the flattened pool and h have the same distribution"}
 
 
 def agree(case, r, o):
     k = case["kind"]
+    if k == "peq":
+        if "exc" in r:
+            return False
+        want = _dist(r["flat"]) == _dist(r["h"])
+        return r["eq"] == want and r["req"] == want and r["ne"] == (not want) and r["rne"] == (not want) and r["Hp"]
     if k == "eq":
         if "exc" in r:
             return False
